@@ -1,0 +1,107 @@
+/*
+ * myth_verif.h --- verification hooks (deterministic simulation).
+ *
+ * Everything in this file expands to nothing unless the library is
+ * compiled with -DMYTH_VERIF.  With the guard on, the macros call
+ * functions provided by an external simulator runtime, which decides
+ * which worker runs next, supplies the random numbers and the clock,
+ * and observes allocation/release of thread records and stacks.
+ */
+#pragma once
+#ifndef MYTH_VERIF_H_
+#define MYTH_VERIF_H_
+
+#if defined(MYTH_VERIF)
+
+#include <stddef.h>
+#include <time.h>
+
+#ifdef __cplusplus
+extern "C" {
+#endif
+
+/* schedule points: the site id says what shared access follows */
+enum {
+  MYTH_VS_NONE = 0,
+  /* myth_spinlock_func.h */
+  MYTH_VS_SPIN_TRY, MYTH_VS_SPIN_LOOP, MYTH_VS_SPIN_UNLOCK,
+  /* myth_mem_barrier_func.h (probe events only) */
+  MYTH_VS_FENCE_R, MYTH_VS_FENCE_W, MYTH_VS_FENCE_RW,
+  /* myth_wsqueue_func.h / myth_if_native.c */
+  MYTH_VS_Q_PUSH_TOP_RD, MYTH_VS_Q_PUSH_SLOT_WR, MYTH_VS_Q_PUSH_TOP_WR,
+  MYTH_VS_Q_POP_QC, MYTH_VS_Q_POP_TOP_WR, MYTH_VS_Q_POP_BASE_RD,
+  MYTH_VS_Q_POP_SLOT_RD, MYTH_VS_Q_POP_RESET,
+  MYTH_VS_Q_TAKE_QC, MYTH_VS_Q_TAKE_BASE_WR, MYTH_VS_Q_TAKE_TOP_RD,
+  MYTH_VS_Q_TAKE_SLOT_RD, MYTH_VS_Q_TAKE_ROLLBACK,
+  MYTH_VS_Q_PEEK_QC, MYTH_VS_Q_PEEK_RD, MYTH_VS_Q_PEEK_SLOT_RD,
+  MYTH_VS_Q_PASS_SLOT_WR, MYTH_VS_Q_PASS_BASE_WR,
+  MYTH_VS_Q_PUT_SLOT_WR, MYTH_VS_Q_PUT_BASE_WR,
+  MYTH_VS_Q_WSAPI_SEQ,
+  /* myth_sched_func.h */
+  MYTH_VS_JOIN_SPIN, MYTH_VS_STATUS_WR, MYTH_VS_DETACH_RD,
+  /* myth_worker_func.h */
+  MYTH_VS_IDLE, MYTH_VS_EXIT_FLAG_WR, MYTH_VS_EXIT_PASS_SPIN,
+  /* myth_sync_func.h */
+  MYTH_VS_MUTEX_CAS, MYTH_VS_MUTEX_RD, MYTH_VS_WAKE_ONE_SPIN,
+  MYTH_VS_WAKE_MANY_SPIN, MYTH_VS_BARRIER_CAS, MYTH_VS_BARRIER_RD,
+  MYTH_VS_BARRIER_RESET, MYTH_VS_JC_CAS, MYTH_VS_JC_RD,
+  MYTH_VS_ONCE_CAS, MYTH_VS_ONCE_RD, MYTH_VS_ONCE_DONE_WR, MYTH_VS_ONCE_SPIN,
+  MYTH_VS_UNCOND_WR, MYTH_VS_UNCOND_RD, MYTH_VS_UNCOND_SPIN,
+  MYTH_VS_FELOCK_STATUS,
+  /* myth_sleep_queue_func.h */
+  MYTH_VS_SSTACK_RD, MYTH_VS_SSTACK_CAS,
+  /* myth_tls_func.h */
+  MYTH_VS_KEY_RD, MYTH_VS_KEY_CAS,
+  /* myth_init.c, myth_wrap_pthread.c */
+  MYTH_VS_INIT_CAS, MYTH_VS_INIT_SPIN, MYTH_VS_INIT_DONE_WR,
+  MYTH_VS_MAGIC_CAS, MYTH_VS_MAGIC_SPIN, MYTH_VS_MAGIC_WR,
+  /* probes (no scheduling decision, only an event) */
+  MYTH_VP_POP_SLOW, MYTH_VP_POP_RESET, MYTH_VP_TAKE_ROLLBACK,
+  MYTH_VP_RECENTRE_DOWN, MYTH_VP_RECENTRE_UP,
+  MYTH_VP_JOIN_FAST, MYTH_VP_JOIN_NEXT, MYTH_VP_JOIN_SCHED,
+  MYTH_VP_FINISH_WAITER, MYTH_VP_FINISH_NEXT, MYTH_VP_FINISH_SCHED,
+  MYTH_VP_FREE_READY2, MYTH_VP_ENTRY_CHILD_FIRST, MYTH_VP_ENTRY_PARENT_FIRST,
+  MYTH_VP_STEAL_HIT, MYTH_VP_MAIN_MIGRATE_BACK,
+  MYTH_VP_BLOCK, MYTH_VP_WAKE, MYTH_VP_CTX_CALLBACK,
+  MYTH_VP_SWITCH_TO,
+  MYTH_VS_N_SITES
+};
+
+/* kinds for the allocation ledger */
+enum { MYTH_VK_DESC = 1, MYTH_VK_STACK = 2 };
+
+void myth_verif_point(int site);
+void myth_verif_spin(int site);
+void myth_verif_probe(int site, const void * p);
+/* the following return non-zero when the simulator handled the request */
+int  myth_verif_spawn_worker(void * (*fn)(void *), void * arg);
+int  myth_verif_join_worker(long rank);
+int  myth_verif_barrier_wait(void * barrier, int n);
+int  myth_verif_random(int min, int max, int * result);
+int  myth_verif_gettime(struct timespec * ts);
+int  myth_verif_queue_size(int dflt);
+void myth_verif_alloc(int kind, void * p, size_t size, int rank);
+void myth_verif_free(int kind, void * p, size_t size, int rank, void * thread);
+extern unsigned long long (*myth_verif_dr_clock)(void);
+
+#ifdef __cplusplus
+}
+#endif
+
+#define MYTH_VERIF_POINT(site)       myth_verif_point(site)
+#define MYTH_VERIF_SPIN(site)        myth_verif_spin(site)
+#define MYTH_VERIF_PROBE(site, p)    myth_verif_probe(site, (const void *)(p))
+#define MYTH_VERIF_ALLOC(k, p, s, r) myth_verif_alloc(k, (void *)(p), s, r)
+#define MYTH_VERIF_FREE(k, p, s, r, t) myth_verif_free(k, (void *)(p), s, r, (void *)(t))
+
+#else  /* MYTH_VERIF */
+
+#define MYTH_VERIF_POINT(site)       ((void)0)
+#define MYTH_VERIF_SPIN(site)        ((void)0)
+#define MYTH_VERIF_PROBE(site, p)    ((void)0)
+#define MYTH_VERIF_ALLOC(k, p, s, r) ((void)0)
+#define MYTH_VERIF_FREE(k, p, s, r, t) ((void)0)
+
+#endif /* MYTH_VERIF */
+
+#endif /* MYTH_VERIF_H_ */
